@@ -19,6 +19,7 @@ import (
 	"strconv"
 	"strings"
 	"sync"
+	"syscall"
 	"time"
 
 	"verif/sim/core"
@@ -123,8 +124,24 @@ func harness(format string, args ...any) {
 	os.Exit(2)
 }
 
+// lowDisk empties the Go build cache when the file system that holds it is nearly full: every distinct tree the
+// simulator is built against (three binaries) leaves some hundred megabytes there, and nothing else trims it in time.
+func lowDisk() {
+	var st syscall.Statfs_t
+	if err := syscall.Statfs(buildDir, &st); err != nil {
+		return
+	}
+	if free := st.Bavail * uint64(st.Bsize); free < 6<<30 {
+		fmt.Printf("note: %d MiB of disk left: emptying the Go build cache\n", free>>20)
+		c := exec.Command(goBin, "clean", "-cache")
+		c.Env = goEnv()
+		c.Run()
+	}
+}
+
 func build() {
 	os.MkdirAll(buildDir, 0o755)
+	lowDisk()
 	prepareInstrumented()
 	// keep go.sum in step with /repo (the module under test is a replace target)
 	if b, err := os.ReadFile(filepath.Join(repoDir, "go.sum")); err == nil {
